@@ -27,7 +27,7 @@ ASSUMPTIONS = [
     "pyserial wraps OS errors in SerialException)",
 ]
 REQUIRED_CLASSES = ["nontrivial", "latched_then_request", "disconnected_then_request", "fault_in_multi_command",
-                    "connect_after_error", "never_connected_request", "warm_history"]
+                    "connect_after_error", "never_connected_request", "warm_history", "close_raises"]
 QUICK_SHARDS = 4
 
 FAULT_KINDS = ["silence", "errline", "wrongname", "raise_write", "raise_read", "old_firmware"]
@@ -70,6 +70,9 @@ class Sim:
         if kind == "connect":
             self._connect(op[1])
         elif kind == "disconnect":
+            if len(op) > 1 and op[1] and isinstance(obj.port, FakePort):
+                obj.port.close_raises = op[1]          # the board dropped off the bus: close() raises
+                self.flags.add("close_raises")
             try:
                 obj.disconnect()
             except Exception as exc:  # pylint: disable=broad-except
@@ -214,9 +217,9 @@ class Machine(RuleBasedStateMachine):
     def connect(self, how):
         self._step(["connect", how])
 
-    @rule()
-    def disconnect(self):
-        self._step(["disconnect"])
+    @rule(exc=st.sampled_from([None, None] + SERIAL_FAMILY))
+    def disconnect(self, exc):
+        self._step(["disconnect", exc])
 
     @rule(op=call_ops())
     def call(self, op):
@@ -299,7 +302,26 @@ def warm_body(ctx, case):
     ctx.record(case, sim.flags | {"warm_history"}, nontrivial=latched)
 
 
+def close_grid():
+    for exc in [None] + SERIAL_FAMILY:
+        for m2 in sorted(em.METHODS):
+            yield ["close", exc, m2]
+
+
+def close_body(ctx, case):
+    _tag, exc, m2 = case
+    sim = Sim(ctx)
+    sim.step(["connect", "good"])
+    sim.step(["call", "query_statusbyte", [], {}])
+    sim.step(["disconnect", exc])
+    sim.step(["call", m2, list(em.METHODS[m2][1]), {}])
+    ctx.record(case, sim.flags, nontrivial=True)
+
+
 def run(ctx):
+    ctx.exhaustive("close-grid", close_grid(), close_body,
+                   "connect, one request, disconnect with close() succeeding / raising each serial exception, then "
+                   "each of the 32 methods")
     ctx.exhaustive("warm-grid", warm_grid(), warm_body,
                    "30 successful calls (every method, fixed arguments), then 5 fault kinds x 5 carrier methods, "
                    "then each of the 32 methods twice")
@@ -314,6 +336,9 @@ def run(ctx):
 def replay(ctx, part, case):
     if case and case[0] == "warm":
         warm_body(ctx, case)
+        return
+    if case and case[0] == "close":
+        close_body(ctx, case)
         return
     if case and not isinstance(case[0], list):       # a grid triple; failures carry histories
         grid_body(ctx, case)
